@@ -200,6 +200,7 @@ class Scheduler(object):
         return op
 
     def run(self, policy, until=None, max_steps=200000):
+        max_steps += self.steps          # a budget for this call, not for the scheduler's lifetime
         while True:
             if until is not None and until():
                 return
